@@ -30,6 +30,9 @@ pub fn mk(st: &str, e: &Value, hs: &Hs) -> Box<dyn Aml> {
         "proc" => Box::new(mk_proc(e, hs)),
         "cache" => Box::new(mk_cache(e, hs)),
         "cmo" => Box::new(mk_cmo(e)),
+        // the stand-alone public constructors of the RHCT nodes the table otherwise builds itself
+        "isa" => Box::new(acpi_tables::rhct::IsaStringNode::new(leak_str(get(get(e, "a"), "str")))),
+        "mmu" => Box::new(acpi_tables::rhct::MmuNode::new(mmu_scheme(e))),
         "hart" => Box::new(mk_hart(e, hs)),
         "iommu" => Box::new(mk_iommu(e)),
         "rc" => Box::new(mk_rc(e, hs)),
@@ -51,6 +54,18 @@ pub fn mk(st: &str, e: &Value, hs: &Hs) -> Box<dyn Aml> {
         "qos" => Box::new(mk_qos(e)),
         "gas" => Box::new(mk_gas(get(e, "a"))),
         "gedata" => Box::new(mk_gedata(e)),
+        "gestatus" => {
+            use acpi_tables::hest::{ErrorSeverity, GenericErrorStatus};
+            let a = get(e, "a");
+            let sev = match str_of(get(a, "severity")) {
+                "Recoverable" => ErrorSeverity::Recoverable,
+                "Fatal" => ErrorSeverity::Fatal,
+                "Correctable" => ErrorSeverity::Correctable,
+                "None" => ErrorSeverity::None,
+                x => panic!("severity {x}"),
+            };
+            Box::new(GenericErrorStatus::new(u32_of(get(a, "cc")), u32_of(get(a, "uc")), sev))
+        }
         "gas_pci" => {
             let a = get(e, "a");
             use acpi_tables::gas::{AccessSize, GAS};
